@@ -12,7 +12,8 @@ LEVEL = "model_checking"
 MANIFEST = dict(
     text="Events.tla holds the mechanism of sqlalchemy.event (per-class _clslevel deques filled through walk_subclasses/update_subclass, "
          "_EmptyListener/_ListenerCollection/_JoinedListener per instance, only_once/named/retval wrapper chain, both registry maps) next to an "
-         "abstract log of registrations in force; TLC checks exhaustively (Base<-A<-B plus a late class, 2 instances incl. a joined one, 3 functions, "
+         "abstract log of registrations in force; TLC checks exhaustively (two hierarchies: chain Base<-A<-B plus a late class C, and diamond Base<-L, Base<-R "
+         "plus a late M(L,R)/M(R,L); 2 instances incl. a joined one, 3 functions, "
          "all walks of 4 steps, thorough adds all 16 option combinations at 3 steps and all walks of 5 steps over 2 functions) that what the mechanism would call is exactly what the log says: every registered listener of the "
          "target and its ancestors once, class-level first, insert=True first, registration order otherwise, once-listeners at most once, nothing "
          "after remove, no dangling registry entry.  Every labelled edge of that graph plus TLC-simulated walks of 9-10 steps are replayed on a private "
@@ -27,7 +28,7 @@ MANIFEST = dict(
     technique="TLA+ specs (Events.tla, ExecOnce.tla) + TLC exhaustive model checking; spec->code replay of every state-graph edge and of simulated "
               "deep walks into sqlalchemy.event; thread interleavings chosen by TLC replayed by a deterministic scheduler")
 
-INVS = ["ExactlyRegisteredEachOnce", "ClassBeforeInstance", "InsertedFirstThenRegistrationOrder", "OnceAtMostOnce",
+INVS = ["ExactlyRegisteredEachOnce", "ClassHoldsAllAncestors", "ClassBeforeInstance", "InsertedFirstThenRegistrationOrder", "OnceAtMostOnce",
         "OnceWrapperAgrees", "NoGhostListeners", "NoDangling"]
 PROPS = ["CallsOnlyRegistered", "RemoveWorks", "DispatchIsAbstract", "ExecOnceOnce", "ExecOnceFlag"]
 FOOTPRINT = ["Listen", "Remove", "CreateSubclass", "NewInstance", "Dispatch", "ExecOnce", "Update"]
@@ -79,10 +80,17 @@ def _shard(args):
     steps, mism = graph.replay(g, walks + extra, lambda wid, w: ED.Driver(wid, w), os.path.join(wd, "replay"), nproc=1)
     cov = {}
     detail = dict(insert=0, once=0, named=0, retval=0, propagate=0, remove_ok=0, remove_bad=0, dispatch_nonempty=0,
-                  execonce_raise=0, join=0, late_inst=0, update_copy=0, once_skipped=0)
+                  execonce_raise=0, join=0, late_inst=0, update_copy=0, once_skipped=0, mi_late_pull=0, mi_dispatch=0, mi_remove=0)
+    dia = consts["Shape"].strip('"') == "diamond"
     nontriv = 0
     for fk, a, tk in g.edges:
         cov[a["a"]] = cov.get(a["a"], 0) + 1
+        if dia:
+            sf, st_ = g.states[fk], g.states[tk]
+            # M(L, R) gets its collection late and has to collect from both bases
+            detail["mi_late_pull"] += (4 not in sf["clin"]) and (4 in st_["clin"]) and len(st_["cl"][3]) >= 2
+            detail["mi_dispatch"] += a["a"] == "Dispatch" and sf["inst"][a["t"] - 11]["cls"] == 4 and len(a["ret"]["calls"]) >= 2
+            detail["mi_remove"] += a["a"] == "Remove" and a["ret"]["out"] == "ok" and a["t"] in (2, 3) and 4 in sf["clin"]
         if a["a"] == "Listen":
             for k, f in (("insert", "ins"), ("once", "once"), ("named", "named"), ("retval", "retval"), ("propagate", "prop")):
                 detail[k] += bool(a[f])
@@ -116,7 +124,8 @@ def _shard(args):
     dg = lambda k: hashlib.blake2b(k.encode(), digest_size=8).digest()
     sdig = set(dg(k) for k in g.states)
     edig = set(dg(fk + graph.key({k: v for k, v in a.items() if k != "obs"}) + tk) for fk, a, tk in g.edges)
-    return dict(shard=shard, violated=g.tlc.violated, sdig=sdig, edig=edig, states=g.tlc.distinct, generated=g.tlc.generated, edges=len(g.edges), plan=plan, steps=steps,
+    return dict(graph="%s/%s/NF%d/%d steps" % (consts["Shape"].strip('"'), styles, consts["NF"], consts["MaxDepth"] - 1),
+                shard=shard, violated=g.tlc.violated, sdig=sdig, edig=edig, states=g.tlc.distinct, generated=g.tlc.generated, edges=len(g.edges), plan=plan, steps=steps,
                 walks=len(walks) + len(extra), mism=mism[:40], nmism=len(mism), cov=cov, detail=detail, nontriv=nontriv,
                 samples=samples, dump_wall=round(g.tlc.wall, 1))
 
@@ -197,24 +206,34 @@ def main(chk):
     quick = chk.quick
     nproc = tlc.NPROC
     # ------------------------------------------------------------------ 1. Events.tla: exhaustive model checking
-    base = dict(NF=3, InstCls="{1,2,3,4}", CPars="{1,2,3}", BadRm="{1,11}", JoinedXoBroken=tree["joined_xo_broken"])
+    base = dict(NF=3, InstCls="{1,2,3,4}", CPars="{1,2,3}", BadRm="{1,11}", JoinedXoBroken=tree["joined_xo_broken"], Shape=tlc.q("chain"))
+    # multiple inheritance: Base <- L, Base <- R, late M(L, R) / M(R, L); instances of L, R, M
+    diamond = dict(base, InstCls="{2,3,4}", CPars="{23,32}", BadRm="{}", Shape=tlc.q("diamond"))
+    narrow = dict(diamond, NF=2, InstCls="{4}")      # two functions, instances of M only: affordable one/two steps deeper
     # dumps = graphs that are model-checked AND replayed edge by edge: (constants, option combinations, shards, extra random walks)
     if quick:
-        deep = None
-        dumps = [(dict(base, MaxDepth=5), "StylesQuick", 8, 20)]                       # MaxDepth 5 = all walks of 4 steps
+        deeps = []
+        dumps = [(dict(base, MaxDepth=5), "StylesQuick", 8, 20),                       # MaxDepth 5 = all walks of 4 steps
+                 (dict(diamond, MaxDepth=5), "StylesQuick", 8, 20),
+                 (dict(narrow, MaxDepth=6), "StylesMin", 2, 20)]                        # listen L, listen R, create M, M(), dispatch/remove
         sim_num, sim_depth = 120, 9
     else:
-        deep = (dict(base, NF=2, MaxDepth=6), "StylesQuick")     # all walks of 5 steps over two functions (multi-worker run, no dump)
+        # all walks of 5 steps over two functions (multi-worker runs, no dump)
+        deeps = [(dict(base, NF=2, MaxDepth=6), "StylesQuick"), (dict(diamond, NF=2, MaxDepth=6), "StylesQuick")]
         dumps = [(dict(base, MaxDepth=5), "StylesQuick", 8, 200),
-                 (dict(base, MaxDepth=4), "StylesFull", 8, 200)]                       # all 16 option combinations, 3 steps
+                 (dict(diamond, MaxDepth=5), "StylesQuick", 8, 200),
+                 (dict(base, MaxDepth=4), "StylesFull", 8, 200),                       # all 16 option combinations, 3 steps
+                 (dict(diamond, MaxDepth=4), "StylesFull", 8, 200),
+                 (dict(narrow, MaxDepth=7), "StylesMin", 8, 200)]
         sim_num, sim_depth = 1500, 10
     # ExecOnceRuns (exec_once works on every target, joined ones included) is part of the property set unless the tree still has
     # the _JoinedListener defect, in which case it is checked separately below (and fails)
     props = PROPS + ([] if tree["joined_xo_broken"] else ["ExecOnceRuns"])
-    r = None
-    if deep:
-        r = tlc.run("Events", _events_cfg(deep[0], deep[1], invs=INVS, props=props), chk.work + "/mc", workers=nproc,
+    deep_runs = []
+    for di, (dc, dsty) in enumerate(deeps):
+        r = tlc.run("Events", _events_cfg(dc, dsty, invs=INVS, props=props), chk.work + "/mc%d" % di, workers=nproc,
                     timeout=6000, keep_stdout=False)
+        deep_runs.append(r)
         if r.violated:
             chk.violation({"spec": "Events", "action": "TLC", "invariant": r.violated, "run": "deep"},
                           "TLC: %s violated in Events.tla" % r.violated, {"invariant": r.violated, "tail": r.stdout[-6000:]})
@@ -229,15 +248,12 @@ def main(chk):
             chk.machinery("calibration: probe says exec_once on a joined listener is broken but TLC finds ExecOnceRuns to hold")
     lap("events_tlc")
     # ------------------------------------------------------------------ 2. every edge, replayed (sharded by the first step)
-    res = []
-    ctx = mp.get_context("fork")
+    jobs = []
     for di, (dump_consts, dump_styles, nshards, nrand) in enumerate(dumps):
-        jobs = [(i, nshards, dump_consts, dump_styles, chk.work + "/dump%d" % di, chk.seed, nrand, props) for i in range(nshards)]
-        with ctx.Pool(max(1, min(nshards, nproc)), maxtasksperchild=1) as pool:
-            part = pool.map(_shard, jobs, chunksize=1)
-        for x in part:
-            x["graph"] = "%s/%d" % (dump_styles, dump_consts["MaxDepth"] - 1)
-        res += part
+        jobs += [(i, nshards, dump_consts, dump_styles, chk.work + "/dump%d" % di, chk.seed, nrand, props) for i in range(nshards)]
+    ctx = mp.get_context("fork")
+    with ctx.Pool(max(1, min(len(jobs), nproc)), maxtasksperchild=1) as pool:
+        res = pool.map(_shard, jobs, chunksize=1)
     cov, detail = {}, {}
     sdig, edig = set(), set()
     for x in res:
@@ -255,7 +271,7 @@ def main(chk):
         if not cov.get(a):
             chk.machinery("vacuous: action %s never taken" % a)
     for k in ("insert", "once", "named", "retval", "propagate", "remove_ok", "remove_bad", "dispatch_nonempty", "execonce_raise", "join",
-              "late_inst", "once_skipped"):
+              "late_inst", "once_skipped", "mi_late_pull", "mi_dispatch", "mi_remove"):
         if not detail.get(k):
             chk.machinery("vacuous: no edge exercises %s" % k)
     uncovered = sum(x["plan"]["edges"] - x["plan"]["edges_covered"] for x in res)
@@ -263,12 +279,19 @@ def main(chk):
         chk.machinery("tour planner left %d edges uncovered" % uncovered)
     lap("events_edges")
     # ------------------------------------------------------------------ 3. deep walks sampled by TLC's simulator
-    sim_cfg = _events_cfg(dict(base, MaxDepth=sim_depth + 1), "StylesFull", invs=["SimEmit"])
-    sg, swalks = ED.simulate_walks("Events", sim_cfg, chk.work + "/sim", sim_num, sim_depth, chk.seed + 1, timeout=1500)
-    if len(swalks) < sim_num // 2:
-        chk.machinery("simulator produced only %d walks" % len(swalks))
-    ssteps, smism = graph.replay(sg, swalks, lambda wid, w: ED.Driver(wid, w), chk.work + "/simreplay", nproc=nproc)
-    _report(chk, "Events", smism)
+    swalks, ssteps, sim_edges, sim_sample = [], 0, 0, None
+    for si, sc in enumerate((base, diamond)):
+        sim_cfg = _events_cfg(dict(sc, MaxDepth=sim_depth + 1), "StylesFull", invs=["SimEmit"])
+        sg, sw = ED.simulate_walks("Events", sim_cfg, chk.work + "/sim%d" % si, sim_num // 2, sim_depth, chk.seed + 1 + si, timeout=1500)
+        if len(sw) < sim_num // 4:
+            chk.machinery("simulator produced only %d walks" % len(sw))
+        st_, smism = graph.replay(sg, sw, lambda wid, w: ED.Driver(wid, w), chk.work + "/simreplay%d" % si, nproc=nproc)
+        _report(chk, "Events", smism)
+        swalks += sw
+        ssteps += st_
+        sim_edges += len(sg.edges)
+        if si == 1 and sw:
+            sim_sample = [_label(sg.edges[ei][1]) for ei in sw[len(sw) // 2]]
     lap("events_sim")
     # ------------------------------------------------------------------ 4. ExecOnce.tla: all interleavings
     try:
@@ -290,19 +313,20 @@ def main(chk):
     # ------------------------------------------------------------------ evidence
     edges = sum(x["edges"] for x in res)
     samples = [s for x in res[:2] for s in x["samples"]][:3]
-    if swalks:
-        samples.append([_label(sg.edges[ei][1]) for ei in swalks[len(swalks) // 2]])
+    if sim_sample:
+        samples.append(sim_sample)
     if xwalks:
         w = max(xwalks, key=len)
         samples.append(["scenario %s boom=%s" % (xg.states[xg.edges[w[0]][0]]["op"], xg.states[xg.edges[w[0]][0]]["boom"])] +
                        ["T%d:%s" % (xg.edges[ei][1]["t"], xg.edges[ei][1]["p"]) for ei in w])
     return chk.finish(
-        dict(states=len(sdig) + xr.distinct + (r.distinct if r else 0),
-             transitions=len(edig) + xr.generated + (r.generated if r else 0),
+        dict(states=len(sdig) + xr.distinct + sum(x.distinct for x in deep_runs),
+             transitions=len(edig) + xr.generated + sum(x.generated for x in deep_runs),
              events_states=len(sdig), events_transitions=len(edig),      # distinct over all shards (union of digests)
-             events_deep_states=r.distinct if r else 0, events_deep_transitions=r.generated if r else 0, events_deep_depth=r.depth if r else 0,
+             events_deep_states=sum(x.distinct for x in deep_runs), events_deep_transitions=sum(x.generated for x in deep_runs),
+             events_deep_depth=max([x.depth for x in deep_runs] or [0]),
              events_edges_replayed=edges, events_edge_walks=sum(x["walks"] for x in res), events_edge_steps=sum(x["steps"] for x in res),
-             events_sim_walks=len(swalks), events_sim_steps=ssteps, events_sim_edges=len(sg.edges),
+             events_sim_walks=len(swalks), events_sim_steps=ssteps, events_sim_edges=sim_edges,
              execonce_states=xr.distinct, execonce_transitions=xr.generated, execonce_depth=xr.depth,
              execonce_atomic_variant_states=xa.distinct if xa else 0,
              execonce_edges=len(xg.edges), execonce_edges_replayed=xplan["edges_covered"], execonce_walks=len(xwalks), execonce_steps=xsteps,
@@ -316,7 +340,7 @@ def main(chk):
                   "replayed on a fresh private event hierarchy, plus %d simulated walks of <= %d steps; non-trivial = Dispatch/ExecOnce edges that call "
                   ">= 2 listeners.  schedules: every edge of the %d-thread ExecOnce.tla interleaving graph replayed by the baton scheduler; "
                   "non-trivial = lock acquisitions, mutex publications and once-pops" % (
-                      ["%s, %d steps" % (d[1], d[0]["MaxDepth"] - 1) for d in dumps], len(swalks), sim_depth, nt),
+                      sorted(set(x["graph"] for x in res)), len(swalks), sim_depth, nt),
              checker_cmd="tlc Events.tla (VIEW View, NEXT NextDump, ACTION_CONSTRAINT EmitShard, all invariants/properties; -workers 1 per shard); "
                          "tlc -simulate Events.tla (INVARIANT SimEmit); tlc ExecOnce.tla (VIEW View, ACTION_CONSTRAINT Emit)"),
         assumptions=["a function is registered on at most one target at a time (same function twice on one target is undefined by the statement)",
@@ -325,5 +349,7 @@ def main(chk):
                      "joined targets: both sides of the join fire (a listener on a common ancestor class fires once per side, as _join documents)",
                      "schedules: thread switches matter only at the shared-memory operations listed in ExecOnce.tla (line events of the anchored "
                      "functions, Lock.acquire/release, the listener body); %d threads" % nt,
+                     "class hierarchies: chain Base<-A<-B + late C(any of them), diamond Base<-L, Base<-R + late M(L,R)/M(R,L); for M the order "
+                     "between listeners that arrived through different bases is the MRO merge at establishment time (not asserted, only conformed)",
                      "bounded: 3 classes + 1 late subclass, 2 instances, 3 functions, exhaustive walks <= %d steps (TLC and replay)%s" % (
-                         dumps[0][0]["MaxDepth"] - 1, "; <= %d steps with 2 functions (TLC only)" % (deep[0]["MaxDepth"] - 1) if deep else "")])
+                         dumps[0][0]["MaxDepth"] - 1, "; <= %d steps with 2 functions (TLC only)" % (deeps[0][0]["MaxDepth"] - 1) if deeps else "")])
